@@ -233,7 +233,14 @@ class SymbolicMaths:
         # a non-integer solution later.
         # We use solvers.solveset to allow testing to monkeypatch solveset
 
-        solution = solvers.solveset(exp1-exp2, symbol)
+        try:
+            solution = solvers.solveset(exp1-exp2, symbol)
+        except NotImplementedError:
+            # SymPy cannot solve this equation (e.g. it contains MIN or MAX
+            # of several variables). As for the other unsolvable cases below,
+            # report that any value might be a solution, which the caller
+            # treats as a (potential) dependence.
+            return "independent"
         if solution == Complexes:
             # The solution is actually independent of the symbol
             # Return a string (instead of the SymPy specific set
